@@ -590,6 +590,12 @@ func Fmax(a, b *Term) *Term {
 	if a.IsConst() && b.IsConst() {
 		return FloatC(a.Sort, math.Max(a.F, b.F))
 	}
+	if realInf(a) == -1 {
+		return b
+	}
+	if realInf(b) == -1 {
+		return a
+	}
 	if a == b {
 		return a
 	}
@@ -600,6 +606,12 @@ func Fmin(a, b *Term) *Term {
 	if a.IsConst() && b.IsConst() {
 		return FloatC(a.Sort, math.Min(a.F, b.F))
 	}
+	if realInf(a) == 1 {
+		return b
+	}
+	if realInf(b) == 1 {
+		return a
+	}
 	if a == b {
 		return a
 	}
@@ -607,9 +619,29 @@ func Fmin(a, b *Term) *Term {
 	return mk("fmin", a.Sort, a, b)
 }
 
+// realInf: in the real interpretation every non-constant value is finite, so
+// comparisons against infinite constants are decided.
+func realInf(a *Term) int {
+	if RealSimplify && a.IsConst() {
+		if math.IsInf(a.F, 1) {
+			return 1
+		}
+		if math.IsInf(a.F, -1) {
+			return -1
+		}
+	}
+	return 0
+}
+
 func Flt(a, b *Term) *Term {
 	if a.IsConst() && b.IsConst() {
 		return BoolC(a.F < b.F)
+	}
+	if realInf(a) == -1 || realInf(b) == 1 {
+		return True
+	}
+	if realInf(a) == 1 || realInf(b) == -1 {
+		return False
 	}
 	if a == b {
 		return False
@@ -619,6 +651,12 @@ func Flt(a, b *Term) *Term {
 func Fle(a, b *Term) *Term {
 	if a.IsConst() && b.IsConst() {
 		return BoolC(a.F <= b.F)
+	}
+	if realInf(a) == -1 || realInf(b) == 1 {
+		return True
+	}
+	if realInf(a) == 1 || realInf(b) == -1 {
+		return False
 	}
 	return mk("fle", Bool, a, b)
 }
